@@ -26,6 +26,7 @@ DESIGN_REF = 'DESIGN.md section 4 (C10)'
 EXPLANATION = ('OPERAND rules (NF of the four uses of `amount`), DRUM/COUNT/TOTAL pairing rules, FRAME from the write log with OWN for '
                'in_place=False, TAB agreement of _STEPS_ABOVE with _STEPS_MIDI, PASS-THROUGH def-use in transpose_chord_symbol, '
                'SEQ rules for Melody.transpose / ChordProgression.transpose / LeadSheet.transpose / squash.')
+EXPLANATION += (' ' + 'PASS/pitch-chain: def-use chain in transpose_chord_symbol - the (step, alteration) arguments of each _transpose_pitch_class call come from one parsed pair (_parse_root / _parse_bass result), and the arguments of each _pitch_class_to_string call from one transposition result, in order.')
 TRUSTED = ['protobuf copy semantics', 'semitone distances between natural letters (oracle)']
 NOT_DECIDED = ['that transposing arbitrary chord spellings is a homomorphism on pitch-class sets (values)']
 ASSUMPTIONS = []
